@@ -12,11 +12,14 @@
    - QUARTER TURNS: C12_rot90_one — one turn in the plane (p, q) is the flip of the second axis followed by the
      exchange of the two axes, as a coordinate map; C12_rot90_two — two turns equal two successive single turns and
      are the flip of both axes; C12_rot90_mod4 — the count matters only modulo four (k = 0: the array itself).
+   - SEVERAL (shift, axis) PAIRS: C12_accumulate — the shifts are accumulated per axis: ascending over the axes that
+     occur, each with the sum of the shifts requested for it (repeated axes add up); C12_roll_pairs — the result holds
+     at c the element found by moving every listed axis entry back by its accumulated shift (roll_src).
    NOT YET PROVED (exhaustively checked by the correspondence run, incl. the inverse laws flip-flip,
-   roll(s)-roll(-s) and k + (4-k) quarter turns executed on the implementation): roll with several (shift, axis)
-   pairs (the per-axis accumulation), roll of rank-1 arrays / with no axis as an array-level statement, three quarter
-   turns as three successive single turns, and negative spellings of the rot90 axes. *)
-From ArrRs Require Import Index Axis Axis_proofs Broadcast_proofs Reorder Reorder_proofs Reorder_axis.
+   roll(s)-roll(-s) and k + (4-k) quarter turns executed on the implementation): roll of rank-1 arrays / with no
+   axis as an array-level statement, three quarter turns as three successive single turns, and negative spellings of
+   the rot90 axes. *)
+From ArrRs Require Import Index Axis Axis_proofs Broadcast_proofs Reorder Reorder_proofs Reorder_axis Roll_pairs.
 
 Theorem C12_rotate : forall (A : Type) (d : A) (l : list A) (s : Z) i, i < length l ->
   nth (Z.to_nat ((Z.of_nat i + s) mod Z.of_nat (length l))) (rotate l s) d = nth i l d.
@@ -119,3 +122,19 @@ Example C12_nonvacuous :
   flip 0%Z (mk (map Z.of_nat (seq 0 12)) [2;3;2]) (Some [1%Z]) = Ok (mk [4;5;2;3;0;1;10;11;8;9;6;7]%Z [2;3;2]) /\
   rot90 0%Z (mk [0;1;2;3;4;5]%Z [2;3]) 1 [0;1]%Z = Ok (mk [2;5;1;4;0;3]%Z [3;2]).
 Proof. repeat split; vm_compute; reflexivity. Qed.
+
+(* roll with several (shift, axis) pairs *)
+Theorem C12_accumulate : forall n pairs,
+  accumulate_shifts n pairs =
+  map (fun ax => (ax, total_shift n pairs ax)) (filter (occurs n pairs) (seq 0 (S (max_axis n pairs)))).
+Proof. exact accumulate_spec. Qed.
+
+Theorem C12_roll_pairs : forall (T : Type) (dflt : T) (a : arr T) shifts axes P,
+  wf a -> pos_shape (shape a) -> (Z.of_nat (ndim a) < two64)%Z -> 2 <= ndim a ->
+  Forall (axis_ok (ndim a)) axes ->
+  broadcast 0%Z 0%Z (mk shifts [length shifts]) (mk axes [length axes]) = Ok P -> ndim P <= 1 ->
+  Forall (fun q => axis_ok (ndim a) (snd q)) (elems P) ->
+  exists R, roll dflt a shifts (Some axes) = Ok R /\ wf R /\ shape R = shape a /\
+    forall c, in_range (shape a) c ->
+      get dflt R c = get dflt a (roll_src (shape a) (accumulate_shifts (ndim a) (elems P)) c).
+Proof. exact @roll_pairs. Qed.
